@@ -282,6 +282,17 @@ def gen_cases(ctx, rng, scale):
             row_P, col_P, val_P = gen_csr(rng, N, kind)
             add({"kind": "SY", "N": N, "row": row_P, "col": col_P, "val": [fr(v) for v in val_P]}, "SY/" + kind)
     add({"kind": "SY", "N": 0, "row": [0], "col": [], "val": []}, "SY/empty")
+    if scale >= 12:
+        # thorough tier / search phase: every sparsity pattern of a 3 x 3 matrix (2^9), columns ascending
+        for mask in range(512):
+            row_P, col_P, val_P = [0], [], []
+            for n in range(3):
+                for c in range(3):
+                    if mask >> (3 * n + c) & 1:
+                        col_P.append(c)
+                        val_P.append(Fraction(1 + 3 * n + c, 16))
+                row_P.append(len(col_P))
+            add({"kind": "SY", "N": 3, "row": row_P, "col": col_P, "val": [fr(v) for v in val_P]}, "SY/exhaustive3x3")
     # VP exact (integer distances) and lattice (spec only)
     for kind in ["line1", "line34", "lattice", "dyadic"]:
         for _ in range(6 * scale):
